@@ -10,6 +10,7 @@ import TdVerif.Lemmas.C12Iter
 import TdVerif.Lemmas.C12Shared
 import TdVerif.Gen.C12Src
 import TdVerif.Model.C12Pins
+import TdVerif.Model.C12Seed
 
 namespace TdVerif.Props.C12
 open TdVerif.C12
@@ -593,6 +594,20 @@ example : (catList 1 (sliceOf 1 (⟨[2, 5], fun c => c⟩ : T (List Nat)) (0, 2)
 example : (catList 1 (mapT (· ++ [7]) (sliceOf 1 (⟨[2, 5], fun c => c⟩ : T (List Nat)) (0, 2)))
     ((splitLoop 5 2 2).map fun p => mapT (· ++ [7]) (sliceOf 1 ⟨[2, 5], fun c => c⟩ p))).Eqv (mapT (· ++ [7]) ⟨[2, 5], fun c => c⟩) :=
   map_split_cat_eq_whole 1 ⟨[2, 5], fun c => c⟩ (mapT (· ++ [7])) (mapT_sliceWise _ 1) (by decide) rfl 2 (by decide)
+
+/-- the workers of the pool `map` makes are seeded **pairwise differently**, each with a seed of `base … base + w - 1`, whatever the order in
+    which they took their ids off the queue (for every base seed and every number of workers) -/
+theorem worker_seeds_distinct (base w : Nat) (ids : List Nat) (h : ids.Perm (List.range w)) :
+    (workerSeeds base ids).Nodup ∧ (∀ s ∈ workerSeeds base ids, base ≤ s ∧ s < base + w)
+      ∧ (workerSeeds base ids).Perm ((List.range w).map (base + ·)) := by
+  refine ⟨?_, ?_, h.map _⟩
+  · have hn : ids.Nodup := h.nodup_iff.mpr List.nodup_range
+    exact List.Pairwise.map _ (fun a b (hab : a ≠ b) => by show base + a ≠ base + b; omega) hn
+  · intro s hs
+    obtain ⟨i, hi, rfl⟩ := List.mem_map.mp hs
+    have : i ∈ List.range w := h.mem_iff.mp hi
+    have := List.mem_range.mp this
+    omega
 
 /-- the functions the C12 models transcribe are, in the working tree, the ones they were transcribed from (AST hashes,
     docstrings removed; regenerated by harness/c12_pins.py on every run): an edit of a transcribed function breaks this
